@@ -696,3 +696,611 @@ Lemma direct_single' O g e s unprot total dc rs ds prot cek acc :
   (exists r, In r rs /\ names_direct g s prot unprot r) ->
   forall out, pre_loop O g e s unprot total dc rs ds prot cek acc <> Ok out.
 Proof. apply direct_single. Qed.
+
+(* ================= end-to-end (object level) for one recipient: key wrapping / key encryption ===== *)
+Section Single.
+Variable O : oracles.
+Hypothesis C : contracts O.
+Variable g : registry.
+
+Lemma perform_encrypt_single_inv o d x r :
+  e_recips o = [r] -> perform_encrypt O g o d = Ok x ->
+  exists encv e hs algv a,
+    hitem (e_prot o) "enc" = Ok encv /\ get_enc g encv = Ok e /\
+    headers (e_ser o) (e_prot o) (e_unprot o) (r_header r) = Ok hs /\
+    o_check_header O (PDict hs) false = Ok tt /\
+    hitem hs "alg" = Ok algv /\ get_alg g algv = Ok a /\
+    (is_agreement a = false -> ea_direct a = false ->
+     exists prot2 r2 ek,
+       encrypt_cek O a (e_ser o) (e_prot o) (e_unprot o) r
+                   (match d_rec d with d0 :: _ => d0 | [] => no_rdraw end) (d_cek d) = Ok (prot2, r2, ek) /\
+       x_prot x = prot2 /\ x_recips x = [set_ek r2 ek] /\ x_cek x = d_cek d).
+Proof.
+  intros R H. unfold perform_encrypt in H. rewrite R in H.
+  inv_bind H. rename x0 into encv. inv_bind H. rename x0 into e.
+  inv_bind H. destruct x0 as [[prot cek] acc].
+  inv_bind H. inv_bind H. inv_bind H.
+  match goal with ctg : (bytes * bytes)%type |- _ => destruct ctg as [ct tag] end.
+  inv_bind H.
+  inversion H; subst; clear H. simpl.
+  match goal with E1 : pre_loop _ _ _ _ _ _ _ _ _ _ _ _ = Ok _ |- _ => rename E1 into PL end.
+  simpl in PL.
+  destruct (prepare_recipient_algorithm O g (e_ser o) (e_prot o) (e_unprot o) r) as [[[a prot1] r1]|] eqn:P; [| discriminate].
+  simpl in PL.
+  unfold prepare_recipient_algorithm in P.
+  inv_bind P. inv_bind P. inv_bind P. inv_bind P.
+  match goal with
+  | Hh : headers _ _ _ _ = Ok ?hs, Hc : o_check_header O (PDict ?hs) false = Ok ?u,
+    Ha : hitem ?hs "alg" = Ok ?algv, Ga : get_alg g ?algv = Ok ?a' |- _ =>
+      destruct u; exists encv, e, hs, algv, a'
+  end.
+  repeat (split; [assumption |]).
+  intros NA ND. rewrite NA in P. inversion P; subst. clear P.
+  rewrite ND, NA in PL.
+  match type of PL with (do pre <- ?ec ; _) = _ => destruct ec as [[[p2 r2] ek]|] eqn:EC; [| discriminate] end.
+  simpl in PL. inversion PL; subst.
+  match goal with E : post_loop _ _ _ _ _ _ _ _ = Ok _ |- _ => simpl in E; inversion E; subst end.
+  do 3 eexists. split; [reflexivity |]. auto.
+Qed.
+
+(* A*KW and RSA*: no header member is added, so both sides see the same merged headers *)
+Theorem single_rt_kw_rsa o d x r :
+  e_recips o = [r] -> perform_encrypt O g o d = Ok x ->
+  (forall hs, o_check_header O (PDict hs) false = Ok tt -> o_check_header O (PDict hs) true = Ok tt) ->
+  (forall hs algv a,
+     headers (e_ser o) (e_prot o) (e_unprot o) (r_header r) = Ok hs -> hitem hs "alg" = Ok algv ->
+     get_alg g algv = Ok a ->
+     ea_direct a = false /\ is_agreement a = false /\
+     ((fam_is (ea_family a) "RSA" = true /\ k_priv (r_key r) = true) \/
+      (fam_is (ea_family a) "RSA" = false /\ fam_is (ea_family a) "AESKW" = true))) ->
+  (forall encv e, hitem (e_prot o) "enc" = Ok encv -> get_enc g encv = Ok e ->
+     lenN (d_civ d) * 8 = ee_iv_size e /\ lenN (d_cek d) * 8 = ee_cek_size e) ->
+  perform_decrypt O g (obj_of o x) = Ok (e_plain o).
+Proof.
+  intros R H CH FAM SZ.
+  destruct (perform_encrypt_single_inv o d x r R H) as [encv [e [hs [algv [a [He [Ge [Hh [Hc [Ha [Ga K]]]]]]]]]]].
+  destruct (FAM hs algv a Hh Ha Ga) as [ND [NA F]].
+  destruct (K NA ND) as [prot2 [r2 [ek [EC [XP [XR XC]]]]]].
+  destruct (SZ encv e He Ge) as [Liv Lcek].
+  assert (KL : decrypt_cek O a hs (set_ek r2 ek) = Ok (d_cek d) /\ prot2 = e_prot o /\ r2 = r).
+  { destruct F as [[F1 P] | [F0 F1]].
+    - eapply cek_rt_rsa; eauto.
+    - eapply cek_rt_aeskw; eauto. }
+  destruct KL as [DK [P2 R2]]. rewrite P2 in *. rewrite R2 in *.
+  eapply message_rt; eauto.
+  - rewrite XP. exact He.
+  - rewrite XR. cbn [recip_loop]. 
+    change (j_ser (obj_of o x)) with (e_ser o). change (j_prot (obj_of o x)) with (x_prot x).
+    change (j_unprot (obj_of o x)) with (e_unprot o). change (j_tag (obj_of o x)) with (x_tag x).
+    rewrite XP.
+    change (r_header (set_ek r ek)) with (r_header r). rewrite Hh. cbn [bind].
+    rewrite (CH hs Hc). cbn [bind]. rewrite Ha. cbn [bind]. rewrite Ga. cbn [bind].
+    unfold decrypt_recipient. rewrite ND, NA. rewrite DK. rewrite XC. reflexivity.
+  - rewrite XC. exact Lcek.
+Qed.
+
+End Single.
+
+(* ================= end-to-end (object level) for one recipient: Direct Encryption ================= *)
+Section SingleDir.
+Variable O : oracles.
+Hypothesis C : contracts O.
+Variable g : registry.
+
+Lemma perform_encrypt_dir_inv o d x r :
+  e_recips o = [r] -> perform_encrypt O g o d = Ok x ->
+  exists encv e hs algv a,
+    hitem (e_prot o) "enc" = Ok encv /\ get_enc g encv = Ok e /\
+    headers (e_ser o) (e_prot o) (e_unprot o) (r_header r) = Ok hs /\
+    o_check_header O (PDict hs) false = Ok tt /\
+    hitem hs "alg" = Ok algv /\ get_alg g algv = Ok a /\
+    (is_agreement a = false -> ea_direct a = true ->
+     fam_is (ea_family a) "dir" = true /\
+     dir_compute_cek a (ee_cek_size e) r = Ok (x_cek x) /\
+     x_prot x = e_prot o /\ x_recips x = [set_ek r []]).
+Proof.
+  intros R H. unfold perform_encrypt in H. rewrite R in H.
+  inv_bind H. rename x0 into encv. inv_bind H. rename x0 into e.
+  inv_bind H. destruct x0 as [[prot cek] acc].
+  inv_bind H. inv_bind H. inv_bind H.
+  match goal with ctg : (bytes * bytes)%type |- _ => destruct ctg as [ct tag] end.
+  inv_bind H.
+  inversion H; subst; clear H. simpl.
+  match goal with E1 : pre_loop _ _ _ _ _ _ _ _ _ _ _ _ = Ok _ |- _ => rename E1 into PL end.
+  simpl in PL.
+  destruct (prepare_recipient_algorithm O g (e_ser o) (e_prot o) (e_unprot o) r) as [[[a prot1] r1]|] eqn:P; [| discriminate].
+  simpl in PL.
+  unfold prepare_recipient_algorithm in P.
+  inv_bind P. inv_bind P. inv_bind P. inv_bind P.
+  match goal with
+  | Hh : headers _ _ _ _ = Ok ?hs, Hc : o_check_header O (PDict ?hs) false = Ok ?u,
+    Ha : hitem ?hs "alg" = Ok ?algv, Ga : get_alg g ?algv = Ok ?a' |- _ =>
+      destruct u; exists encv, e, hs, algv, a'
+  end.
+  repeat (split; [assumption |]).
+  intros NA D. rewrite NA in P. inversion P; subst. clear P.
+  rewrite D in PL.
+  unfold pre_encrypt_direct_mode in PL. rewrite NA in PL.
+  destruct (fam_is (ea_family a) "dir") eqn:F; [| discriminate].
+  destruct (dir_compute_cek a (ee_cek_size e) r1) as [ck|] eqn:DC; [| discriminate].
+  simpl in PL. inversion PL; subst.
+  match goal with E : post_loop _ _ _ _ _ _ _ _ = Ok _ |- _ => simpl in E; inversion E; subst end.
+  auto.
+Qed.
+
+Theorem single_rt_dir o d x r :
+  e_recips o = [r] -> perform_encrypt O g o d = Ok x ->
+  (forall hs, o_check_header O (PDict hs) false = Ok tt -> o_check_header O (PDict hs) true = Ok tt) ->
+  (forall hs algv a,
+     headers (e_ser o) (e_prot o) (e_unprot o) (r_header r) = Ok hs -> hitem hs "alg" = Ok algv ->
+     get_alg g algv = Ok a -> ea_direct a = true /\ is_agreement a = false) ->
+  (forall encv e, hitem (e_prot o) "enc" = Ok encv -> get_enc g encv = Ok e ->
+     lenN (d_civ d) * 8 = ee_iv_size e) ->
+  perform_decrypt O g (obj_of o x) = Ok (e_plain o).
+Proof.
+  intros R H CH FAM SZ.
+  destruct (perform_encrypt_dir_inv o d x r R H) as [encv [e [hs [algv [a [He [Ge [Hh [Hc [Ha [Ga K]]]]]]]]]]].
+  destruct (FAM hs algv a Hh Ha Ga) as [D NA].
+  destruct (K NA D) as [F [DC [XP XR]]].
+  pose proof (SZ encv e He Ge) as Liv.
+  assert (Lc : lenN (x_cek x) * 8 = ee_cek_size e).
+  { unfold dir_compute_cek in DC. inv_bind DC.
+    destruct (lenN (k_id (r_key r)) * 8 =? ee_cek_size e) eqn:L; [| discriminate].
+    inversion DC as [Q]. apply N.eqb_eq in L. exact L. }
+  eapply message_rt; eauto.
+  - rewrite XP. exact He.
+  - rewrite XR. cbn [recip_loop].
+    change (j_ser (obj_of o x)) with (e_ser o). change (j_prot (obj_of o x)) with (x_prot x).
+    change (j_unprot (obj_of o x)) with (e_unprot o). change (j_tag (obj_of o x)) with (x_tag x).
+    rewrite XP.
+    change (r_header (set_ek r [])) with (r_header r). rewrite Hh. cbn [bind].
+    rewrite (CH hs Hc). cbn [bind]. rewrite Ha. cbn [bind]. rewrite Ga. cbn [bind].
+    unfold decrypt_recipient. rewrite D. cbn [r_ek set_ek]. rewrite NA, F.
+    change (dir_compute_cek a (ee_cek_size e) (set_ek r [])) with (dir_compute_cek a (ee_cek_size e) r).
+    rewrite DC. reflexivity.
+Qed.
+
+End SingleDir.
+
+(* ================= add_header: the other members are untouched; well-formedness is kept ========= *)
+Lemma add_header_other s prot unprot r k v p' r' hs hs' k2 :
+  wf prot -> hdr_wf unprot -> hdr_wf (r_header r) ->
+  (s = Compact -> r_header r = PNone) ->
+  add_header s prot r k v = Ok (p', r') ->
+  headers s prot unprot (r_header r) = Ok hs ->
+  headers s p' unprot (r_header r') = Ok hs' ->
+  k <> k2 ->
+  dget hs' k2 = dget hs k2.
+Proof.
+  intros Wp Wu Wh Hc A H H' NE. unfold add_header in A.
+  pose proof (headers_get s prot unprot (r_header r) hs k2 Wp Wu Wh H) as G.
+  assert (JS : s <> Compact ->
+               (if py_truth (r_header r)
+                then match r_header r with
+                     | PDict e => Ok (prot, set_header r (PDict (dset e k v)))
+                     | _ => Err EAttr
+                     end
+                else Ok (prot, set_header r (PDict [(k, v)]))) = Ok (p', r') ->
+               dget hs' k2 = dget hs k2).
+  { intros NC A'.
+    destruct (py_truth (r_header r)) eqn:T.
+    - destruct (r_header r) eqn:RH; try discriminate. inversion A'; subst. simpl in H'.
+      pose proof (headers_get s p' unprot (PDict (dset d k v)) hs' k2 Wp Wu (wf_dset d k v Wh) H') as G'.
+      rewrite G', G. rewrite truthy_dset. try rewrite T.
+      rewrite (dget_dset_other d k k2 v NE). reflexivity.
+    - inversion A'; subst. simpl in H'.
+      pose proof (headers_get s p' unprot (PDict [(k, v)]) hs' k2 Wp Wu (wf_single k v) H') as G'.
+      rewrite G', G. simpl.
+      assert (X : str_eqb k k2 = false) by (apply str_eqb_neq; exact NE).
+      rewrite X. reflexivity. }
+  destruct s.
+  - inversion A; subst. rewrite (Hc eq_refl) in *.
+    pose proof (headers_get Compact (dset prot k v) unprot PNone hs' k2 (wf_dset prot k v Wp) Wu I H') as G'.
+    rewrite G', G. simpl. apply dget_dset_other. exact NE.
+  - apply JS; [discriminate | exact A].
+  - apply JS; [discriminate | exact A].
+Qed.
+
+Lemma add_header_wf s prot r k v p' r' :
+  wf prot -> hdr_wf (r_header r) -> (s = Compact -> r_header r = PNone) ->
+  add_header s prot r k v = Ok (p', r') ->
+  wf p' /\ hdr_wf (r_header r') /\ (s = Compact -> r_header r' = PNone) /\
+  r_key r' = r_key r /\ r_sender r' = r_sender r /\ r_ek r' = r_ek r /\ r_eph r' = r_eph r.
+Proof.
+  intros Wp Wh Hc A. unfold add_header in A. destruct s.
+  - inversion A; subst. repeat split; auto. apply wf_dset. exact Wp.
+  - destruct (py_truth (r_header r)).
+    + destruct (r_header r) eqn:RH; try discriminate. inversion A; subst. simpl.
+      repeat split; auto; try discriminate. apply wf_dset. exact Wh.
+    + inversion A; subst. simpl. repeat split; auto; try discriminate. apply wf_single.
+  - destruct (py_truth (r_header r)).
+    + destruct (r_header r) eqn:RH; try discriminate. inversion A; subst. simpl.
+      repeat split; auto; try discriminate. apply wf_dset. exact Wh.
+    + inversion A; subst. simpl. repeat split; auto; try discriminate. apply wf_single.
+Qed.
+
+(* two successive add_header calls (GCM-KW iv/tag, PBES2 p2s/p2c): both members are seen, the rest is untouched *)
+Lemma add_header2 s prot unprot r k1 v1 k2 v2 p1 r1 p2 r2 hs hs' :
+  wf prot -> hdr_wf unprot -> hdr_wf (r_header r) -> (s = Compact -> r_header r = PNone) ->
+  k1 <> k2 ->
+  add_header s prot r k1 v1 = Ok (p1, r1) ->
+  add_header s p1 r1 k2 v2 = Ok (p2, r2) ->
+  headers s prot unprot (r_header r) = Ok hs ->
+  headers s p2 unprot (r_header r2) = Ok hs' ->
+  dget hs' k1 = Some v1 /\ dget hs' k2 = Some v2 /\
+  (forall k, k1 <> k -> k2 <> k -> dget hs' k = dget hs k) /\
+  r_key r2 = r_key r /\ r_ek r2 = r_ek r.
+Proof.
+  intros Wp Wu Wh Hc NE A1 A2 H H'.
+  destruct (add_header_wf s prot r k1 v1 p1 r1 Wp Wh Hc A1) as [Wp1 [Wh1 [Hc1 [K1 [S1 [E1 P1]]]]]].
+  destruct (add_header_wf s p1 r1 k2 v2 p2 r2 Wp1 Wh1 Hc1 A2) as [Wp2 [Wh2 [Hc2 [K2 [S2 [E2 P2]]]]]].
+  (* the intermediate merged headers exist: headers only fails on a non-dict unprotected / recipient header *)
+  assert (Hmid : exists hs1, headers s p1 unprot (r_header r1) = Ok hs1).
+  { unfold headers in *. 
+    destruct (match s with Compact => Ok (dupdate [] p1) | _ => if py_truth unprot then py_update (dupdate [] p1) unprot else Ok (dupdate [] p1) end) as [rv1|ex] eqn:Q.
+    - cbn [bind].
+      destruct (py_truth (r_header r1)) eqn:T; [| eauto].
+      destruct (r_header r1) eqn:RH; try (simpl in Wh1; simpl; eauto; fail).
+      + simpl in T. discriminate.
+      + (* PBool *) exfalso. unfold add_header in A1. destruct s.
+        * inversion A1; subst. rewrite (Hc eq_refl) in RH. discriminate.
+        * destruct (py_truth (r_header r)); [destruct (r_header r); try discriminate; inversion A1; subst; discriminate | inversion A1; subst; discriminate].
+        * destruct (py_truth (r_header r)); [destruct (r_header r); try discriminate; inversion A1; subst; discriminate | inversion A1; subst; discriminate].
+      + exfalso. unfold add_header in A1. destruct s.
+        * inversion A1; subst. rewrite (Hc eq_refl) in RH. discriminate.
+        * destruct (py_truth (r_header r)); [destruct (r_header r); try discriminate; inversion A1; subst; discriminate | inversion A1; subst; discriminate].
+        * destruct (py_truth (r_header r)); [destruct (r_header r); try discriminate; inversion A1; subst; discriminate | inversion A1; subst; discriminate].
+      + exfalso. unfold add_header in A1. destruct s.
+        * inversion A1; subst. rewrite (Hc eq_refl) in RH. discriminate.
+        * destruct (py_truth (r_header r)); [destruct (r_header r); try discriminate; inversion A1; subst; discriminate | inversion A1; subst; discriminate].
+        * destruct (py_truth (r_header r)); [destruct (r_header r); try discriminate; inversion A1; subst; discriminate | inversion A1; subst; discriminate].
+      + exfalso. unfold add_header in A1. destruct s.
+        * inversion A1; subst. rewrite (Hc eq_refl) in RH. discriminate.
+        * destruct (py_truth (r_header r)); [destruct (r_header r); try discriminate; inversion A1; subst; discriminate | inversion A1; subst; discriminate].
+        * destruct (py_truth (r_header r)); [destruct (r_header r); try discriminate; inversion A1; subst; discriminate | inversion A1; subst; discriminate].
+      + exfalso. unfold add_header in A1. destruct s.
+        * inversion A1; subst. rewrite (Hc eq_refl) in RH. discriminate.
+        * destruct (py_truth (r_header r)); [destruct (r_header r); try discriminate; inversion A1; subst; discriminate | inversion A1; subst; discriminate].
+        * destruct (py_truth (r_header r)); [destruct (r_header r); try discriminate; inversion A1; subst; discriminate | inversion A1; subst; discriminate].
+      + exfalso. unfold add_header in A1. destruct s.
+        * inversion A1; subst. rewrite (Hc eq_refl) in RH. discriminate.
+        * destruct (py_truth (r_header r)); [destruct (r_header r); try discriminate; inversion A1; subst; discriminate | inversion A1; subst; discriminate].
+        * destruct (py_truth (r_header r)); [destruct (r_header r); try discriminate; inversion A1; subst; discriminate | inversion A1; subst; discriminate].
+    - (* the unprotected-header step fails: then it also fails for the final state, contradiction with H' *)
+      exfalso.
+      assert (P12 : s <> Compact -> p2 = p1) by (intro N; apply add_header_json_prot in A2; [tauto | exact N]).
+      destruct s; [discriminate | |].
+      + rewrite (P12 ltac:(discriminate)) in H'. 
+        destruct (py_truth unprot); [| discriminate].
+        destruct unprot; simpl in Q; try discriminate; simpl in H'; try discriminate;
+          try (destruct l; simpl in *; discriminate); try (destruct s; simpl in *; discriminate).
+      + rewrite (P12 ltac:(discriminate)) in H'.
+        destruct (py_truth unprot); [| discriminate].
+        destruct unprot; simpl in Q; try discriminate; simpl in H'; try discriminate;
+          try (destruct l; simpl in *; discriminate); try (destruct s; simpl in *; discriminate). }
+  destruct Hmid as [hs1 H1].
+  pose proof (add_header_get s prot unprot r k1 v1 p1 r1 hs1 Wp Wu Wh Hc A1 H1) as G1.
+  pose proof (add_header_get s p1 unprot r1 k2 v2 p2 r2 hs' Wp1 Wu Wh1 Hc1 A2 H') as G2.
+  pose proof (add_header_other s p1 unprot r1 k2 v2 p2 r2 hs1 hs' k1 Wp1 Wu Wh1 Hc1 A2 H1 H' (fun E => NE (eq_sym E))) as G3.
+  split; [rewrite G3; exact G1 |]. split; [exact G2 |].
+  split.
+  - intros k N1 N2.
+    rewrite (add_header_other s p1 unprot r1 k2 v2 p2 r2 hs1 hs' k Wp1 Wu Wh1 Hc1 A2 H1 H' N2).
+    apply (add_header_other s prot unprot r k1 v1 p1 r1 hs hs1 k Wp Wu Wh Hc A1 H H1 N1).
+  - split; congruence.
+Qed.
+
+Lemma gcmkw_fields_local O a s prot unprot r d cek p' r' ek :
+  fam_is (ea_family a) "RSA" = false -> fam_is (ea_family a) "AESKW" = false ->
+  fam_is (ea_family a) "AESGCMKW" = true ->
+  encrypt_cek O a s prot unprot r d cek = Ok (p', r', ek) ->
+  exists tg pr,
+    o_gcm_enc O (k_id (r_key r)) (d_kwiv d) None cek = Ok (ek, tg) /\
+    add_header s prot r (s_ "iv") (PStr (b64e (d_kwiv d))) = Ok pr /\
+    add_header s (fst pr) (snd pr) (s_ "tag") (PStr (b64e tg)) = Ok (p', r').
+Proof.
+  intros F0 F1 F H. unfold encrypt_cek in H. rewrite F0, F1, F in H.
+  inv_bind H. inv_bind H. inv_bind H.
+  match goal with et : (bytes * bytes)%type |- _ => destruct et as [ek' tg] end.
+  inv_bind H. inv_bind H.
+  inversion H; subst. exists tg. eexists. simpl in *. split; [eassumption |]. split; [eassumption |].
+  match goal with pr2 : (dict * recip)%type |- _ => destruct pr2 end. simpl. eassumption.
+Qed.
+
+(* ================= end-to-end (object level) for one recipient: AES-GCM key wrap ================= *)
+Section SingleGcmkw.
+Variable O : oracles.
+Hypothesis C : contracts O.
+Variable g : registry.
+
+Theorem single_rt_gcmkw o d x r :
+  e_recips o = [r] -> perform_encrypt O g o d = Ok x ->
+  wf (e_prot o) -> hdr_wf (e_unprot o) -> hdr_wf (r_header r) -> (e_ser o = Compact -> r_header r = PNone) ->
+  (forall r' hs', x_recips x = [r'] -> headers (e_ser o) (x_prot x) (e_unprot o) (r_header r') = Ok hs' ->
+                  o_check_header O (PDict hs') true = Ok tt) ->
+  (exists r' hs', x_recips x = [r'] /\ headers (e_ser o) (x_prot x) (e_unprot o) (r_header r') = Ok hs') ->
+  (forall hs algv a,
+     headers (e_ser o) (e_prot o) (e_unprot o) (r_header r) = Ok hs -> hitem hs "alg" = Ok algv ->
+     get_alg g algv = Ok a ->
+     ea_direct a = false /\ is_agreement a = false /\
+     fam_is (ea_family a) "RSA" = false /\ fam_is (ea_family a) "AESKW" = false /\
+     fam_is (ea_family a) "AESGCMKW" = true) ->
+  (forall k iv a m c t, o_gcm_enc O k iv a m = Ok (c, t) -> bytes_ok t = true) ->
+  bytes_ok (match d_rec d with d0 :: _ => d_kwiv d0 | [] => [] end) = true ->
+  (forall encv e, hitem (e_prot o) "enc" = Ok encv -> get_enc g encv = Ok e ->
+     lenN (d_civ d) * 8 = ee_iv_size e /\ lenN (d_cek d) * 8 = ee_cek_size e) ->
+  perform_decrypt O g (obj_of o x) = Ok (e_plain o).
+Proof.
+  intros R H Wp Wu Wh Hc CH [r' [hs' [XR' H']]] FAM BT BIV SZ.
+  destruct (perform_encrypt_single_inv O g o d x r R H) as [encv [e [hs [algv [a [He [Ge [Hh [Hck [Ha [Ga K]]]]]]]]]]].
+  destruct (FAM hs algv a Hh Ha Ga) as [ND [NA [F0 [F1 F2]]]].
+  destruct (K NA ND) as [prot2 [r2 [ek [EC [XP [XR XC]]]]]].
+  destruct (SZ encv e He Ge) as [Liv Lcek].
+  set (dr := match d_rec d with d0 :: _ => d0 | [] => no_rdraw end) in *.
+  assert (BIV' : bytes_ok (d_kwiv dr) = true).
+  { unfold dr. destruct (d_rec d); [reflexivity | exact BIV]. }
+  destruct (gcmkw_fields_local O a (e_ser o) (e_prot o) (e_unprot o) r dr (d_cek d) prot2 r2 ek F0 F1 F2 EC)
+    as [tg [[p1 r1] [G [A1 A2]]]]. simpl in A2.
+  rewrite XR in XR'. inversion XR'; subst r'. clear XR'.
+  rewrite XP in H'. change (r_header (set_ek r2 ek)) with (r_header r2) in H'.
+  assert (NE : s_ "iv" <> s_ "tag") by (vm_compute; discriminate).
+  destruct (add_header2 (e_ser o) (e_prot o) (e_unprot o) r _ _ _ _ p1 r1 prot2 r2 hs hs' Wp Wu Wh Hc NE A1 A2 Hh H')
+    as [Giv [Gtag [Goth [RK REK]]]].
+  assert (Halg : hitem hs' "alg" = Ok algv).
+  { unfold hitem in *. rewrite (Goth (asc "alg")); [exact Ha | vm_compute; discriminate | vm_compute; discriminate]. }
+  assert (DK : decrypt_cek O a hs' (set_ek r2 ek) = Ok (d_cek d)).
+  { eapply cek_rt_gcmkw; eauto. }
+  eapply message_rt; eauto.
+  - rewrite XP. unfold hitem. 
+    assert (P12 : dget prot2 (asc "enc") = dget (e_prot o) (asc "enc")).
+    { destruct (e_ser o) eqn:S.
+      - (* compact: protected header got iv and tag *)
+        unfold add_header in A1, A2. inversion A1; subst. inversion A2; subst.
+        rewrite dget_dset_other by (vm_compute; discriminate).
+        rewrite dget_dset_other by (vm_compute; discriminate). reflexivity.
+      - apply add_header_json_prot in A1; [| discriminate].
+        apply add_header_json_prot in A2; [| discriminate]. destruct A1, A2. congruence.
+      - apply add_header_json_prot in A1; [| discriminate].
+        apply add_header_json_prot in A2; [| discriminate]. destruct A1, A2. congruence. }
+    rewrite P12. exact He.
+  - rewrite XR. cbn [recip_loop].
+    change (j_ser (obj_of o x)) with (e_ser o). change (j_prot (obj_of o x)) with (x_prot x).
+    change (j_unprot (obj_of o x)) with (e_unprot o). change (j_tag (obj_of o x)) with (x_tag x).
+    rewrite XP. change (r_header (set_ek r2 ek)) with (r_header r2). rewrite H'. cbn [bind].
+    rewrite (CH (set_ek r2 ek) hs' XR). 2: { rewrite XP. exact H'. }
+    cbn [bind]. rewrite Halg. cbn [bind]. rewrite Ga. cbn [bind].
+    unfold decrypt_recipient. rewrite ND, NA. rewrite DK. rewrite XC. reflexivity.
+  - rewrite XC. exact Lcek.
+Qed.
+
+End SingleGcmkw.
+
+(* ================= end-to-end (object level) for one recipient: Direct Key Agreement ================= *)
+Section SingleEcdhDirect.
+Variable O : oracles.
+Hypothesis C : contracts O.
+Variable g : registry.
+
+Lemma dec_auk_set_ek a e hs r ek tag : dec_auk O a e hs (set_ek r ek) tag = dec_auk O a e hs r tag.
+Proof. reflexivity. Qed.
+
+Lemma perform_encrypt_ecdh_direct_inv o d x r :
+  e_recips o = [r] -> perform_encrypt O g o d = Ok x ->
+  exists encv e hs algv a,
+    hitem (e_prot o) "enc" = Ok encv /\ get_enc g encv = Ok e /\
+    headers (e_ser o) (e_prot o) (e_unprot o) (r_header r) = Ok hs /\
+    o_check_header O (PDict hs) false = Ok tt /\
+    hitem hs "alg" = Ok algv /\ get_alg g algv = Ok a /\
+    (is_agreement a = true -> ea_direct a = true ->
+     exists eph epkd prot1 r1 hs1,
+       check_key_type a (r_key r) = Ok tt /\ r_eph r = Some (eph, epkd) /\
+       add_header (e_ser o) (e_prot o) r (s_ "epk") epkd = Ok (prot1, r1) /\
+       headers (e_ser o) prot1 (e_unprot o) (r_header r1) = Ok hs1 /\
+       enc_auk O a e hs1 r1 None = Ok (x_cek x) /\ lenN (x_cek x) * 8 = ee_cek_size e /\
+       x_prot x = prot1 /\ x_recips x = [set_ek r1 []]).
+Proof.
+  intros R H. unfold perform_encrypt in H. rewrite R in H.
+  inv_bind H. rename x0 into encv. inv_bind H. rename x0 into e.
+  inv_bind H. destruct x0 as [[prot cek] acc].
+  inv_bind H. inv_bind H. inv_bind H.
+  match goal with ctg : (bytes * bytes)%type |- _ => destruct ctg as [ct tag] end.
+  inv_bind H.
+  inversion H; subst; clear H. simpl.
+  match goal with E1 : pre_loop _ _ _ _ _ _ _ _ _ _ _ _ = Ok _ |- _ => rename E1 into PL end.
+  simpl in PL.
+  destruct (prepare_recipient_algorithm O g (e_ser o) (e_prot o) (e_unprot o) r) as [[[a prot1] r1]|] eqn:P; [| discriminate].
+  simpl in PL.
+  unfold prepare_recipient_algorithm in P.
+  inv_bind P. inv_bind P. inv_bind P. inv_bind P.
+  match goal with
+  | Hh : headers _ _ _ _ = Ok ?hs, Hc : o_check_header O (PDict ?hs) false = Ok ?u,
+    Ha : hitem ?hs "alg" = Ok ?algv, Ga : get_alg g ?algv = Ok ?a' |- _ =>
+      destruct u; exists encv, e, hs, algv, a'
+  end.
+  repeat (split; [assumption |]).
+  intros AG D. rewrite AG in P. inv_bind P.
+  match goal with pr : (dict * recip)%type |- _ => destruct pr as [pp rr] end.
+  inversion P; subst. clear P. simpl in *.
+  rewrite D in PL.
+  unfold prepare_ephemeral_key in *.
+  match goal with E : (do _ <- check_key_type _ _ ; _) = Ok _ |- _ => inv_bind E; rename E into AH end.
+  match goal with u : unit |- _ => destruct u end.
+  destruct (r_eph r) as [[eph epkd]|] eqn:RE; [| discriminate].
+  simpl in AH.
+  unfold pre_encrypt_direct_mode in PL. rewrite AG in PL.
+  destruct (headers (e_ser o) prot1 (e_unprot o) (r_header r1)) as [hs1|] eqn:H1; [| discriminate].
+  simpl in PL.
+  destruct (enc_auk O a e hs1 r1 None) as [c|] eqn:EA; [| discriminate].
+  simpl in PL.
+  destruct (lenN c * 8 =? ee_cek_size e) eqn:L; [| discriminate].
+  simpl in PL. inversion PL; subst.
+  match goal with E : post_loop _ _ _ _ _ _ _ _ = Ok _ |- _ => simpl in E; inversion E; subst end.
+  exists eph, epkd, prot, r1, hs1. apply N.eqb_eq in L. repeat split; auto.
+Qed.
+
+Theorem single_rt_ecdh_direct o d x r :
+  e_recips o = [r] -> perform_encrypt O g o d = Ok x ->
+  wf (e_prot o) -> hdr_wf (e_unprot o) -> hdr_wf (r_header r) -> (e_ser o = Compact -> r_header r = PNone) ->
+  (forall hs', o_check_header O (PDict hs') true = Ok tt) ->
+  (forall hs algv a,
+     headers (e_ser o) (e_prot o) (e_unprot o) (r_header r) = Ok hs -> hitem hs "alg" = Ok algv ->
+     get_alg g algv = Ok a -> ea_direct a = true /\ is_agreement a = true) ->
+  (forall eph epkd, r_eph r = Some (eph, epkd) ->
+     o_import O (k_kty (r_key r)) epkd = Ok (pubk eph) /\ k_kty eph = k_kty (r_key r)) ->
+  k_priv (r_key r) = true ->
+  (forall sk, r_sender r = Some sk -> k_kty sk = k_kty (r_key r)) ->
+  (forall encv e, hitem (e_prot o) "enc" = Ok encv -> get_enc g encv = Ok e ->
+     lenN (d_civ d) * 8 = ee_iv_size e) ->
+  perform_decrypt O g (obj_of o x) = Ok (e_plain o).
+Proof.
+  intros R H Wp Wu Wh Hc CH FAM IMP PRIV SKT SZ.
+  destruct (perform_encrypt_ecdh_direct_inv o d x r R H) as [encv [e [hs [algv [a [He [Ge [Hh [Hck [Ha [Ga K]]]]]]]]]]].
+  destruct (FAM hs algv a Hh Ha Ga) as [D AG].
+  destruct (K AG D) as [eph [epkd [prot1 [r1 [hs1 [CK [RE [AH [H1 [EA [Lc [XP XR]]]]]]]]]]]].
+  destruct (IMP eph epkd RE) as [IM KT].
+  pose proof (SZ encv e He Ge) as Liv.
+  destruct (add_header_wf (e_ser o) (e_prot o) r (s_ "epk") epkd prot1 r1 Wp Wh Hc AH)
+    as [Wp1 [Wh1 [Hc1 [RK [RS [REK RPH]]]]]].
+  pose proof (add_header_get (e_ser o) (e_prot o) (e_unprot o) r (s_ "epk") epkd prot1 r1 hs1 Wp Wu Wh Hc AH H1) as Gepk.
+  assert (Halg : hitem hs1 "alg" = Ok algv).
+  { unfold hitem in *.
+    rewrite (add_header_other (e_ser o) (e_prot o) (e_unprot o) r (s_ "epk") epkd prot1 r1 hs hs1 (asc "alg") Wp Wu Wh Hc AH Hh H1);
+      [exact Ha | vm_compute; discriminate]. }
+  assert (Henc : hitem prot1 "enc" = Ok encv).
+  { unfold hitem in *. destruct (e_ser o) eqn:S.
+    - unfold add_header in AH. inversion AH; subst. rewrite dget_dset_other by (vm_compute; discriminate). exact He.
+    - apply add_header_json_prot in AH; [| discriminate]. destruct AH as [-> _]. exact He.
+    - apply add_header_json_prot in AH; [| discriminate]. destruct AH as [-> _]. exact He. }
+  assert (DA : dec_auk O a e hs1 r1 None = Ok (x_cek x)).
+  { eapply (auk_rt O C a e hs1 r1 None (x_cek x) eph epkd); eauto.
+    - rewrite RPH. exact RE.
+    - rewrite RK. exact IM.
+    - rewrite RK. exact PRIV.
+    - rewrite RK. exact KT.
+    - intros sk Hs. rewrite RK. apply SKT. rewrite <- RS. exact Hs.
+    - rewrite RK. exact CK. }
+  eapply message_rt; eauto.
+  - rewrite XP. exact Henc.
+  - rewrite XR. cbn [recip_loop].
+    change (j_ser (obj_of o x)) with (e_ser o). change (j_prot (obj_of o x)) with (x_prot x).
+    change (j_unprot (obj_of o x)) with (e_unprot o). change (j_tag (obj_of o x)) with (x_tag x).
+    rewrite XP. change (r_header (set_ek r1 [])) with (r_header r1). rewrite H1. cbn [bind].
+    rewrite (CH hs1). cbn [bind]. rewrite Halg. cbn [bind]. rewrite Ga. cbn [bind].
+    unfold decrypt_recipient. rewrite D. cbn [r_ek set_ek]. rewrite AG.
+    rewrite dec_auk_set_ek. rewrite DA. reflexivity.
+Qed.
+
+End SingleEcdhDirect.
+
+(* ================= end-to-end (object level) for one recipient: PBES2 ================= *)
+Section SinglePbes2.
+Variable O : oracles.
+Hypothesis C : contracts O.
+Variable g : registry.
+
+(* what PBES2 encrypt_cek did, in terms of the merged headers of the final state *)
+Lemma pbes2_encrypt_inv a s prot unprot r d cek p2 r2 ek hs hs' :
+  fam_is (ea_family a) "RSA" = false -> fam_is (ea_family a) "AESKW" = false ->
+  fam_is (ea_family a) "AESGCMKW" = false -> fam_is (ea_family a) "PBES2" = true ->
+  wf prot -> hdr_wf unprot -> hdr_wf (r_header r) -> (s = Compact -> r_header r = PNone) ->
+  bytes_ok (d_p2s d) = true ->
+  encrypt_cek O a s prot unprot r d cek = Ok (p2, r2, ek) ->
+  headers s prot unprot (r_header r) = Ok hs ->
+  headers s p2 unprot (r_header r2) = Ok hs' ->
+  exists sb p2s kek,
+    dmem hs' (asc "p2s") = true /\ dmem hs' (asc "p2c") = true /\
+    to_bytes_pv (hget hs' "p2s") = Ok sb /\ b64d sb = Ok p2s /\
+    check_key_type a (r_key r) = Ok tt /\
+    pbes2_kek O a (r_key r) p2s (hget hs' "p2c") = Ok kek /\
+    kw_wrap_cek O (key_size_of a) cek kek = Ok ek /\
+    r_key r2 = r_key r /\
+    (forall k, s_ "p2s" <> k -> s_ "p2c" <> k -> dget hs' k = dget hs k) /\
+    (s <> Compact -> p2 = prot) /\
+    (s = Compact -> forall k, s_ "p2s" <> k -> s_ "p2c" <> k -> dget p2 k = dget prot k).
+Proof.
+  intros F0 F1 F2 F3 Wp Wu Wh Hc BS H Hh H'.
+  unfold encrypt_cek in H. rewrite F0, F1, F2, F3 in H. rewrite Hh in H. cbn [bind] in H.
+  assert (NE : s_ "p2s" <> s_ "p2c") by (vm_compute; discriminate).
+  destruct (dmem hs (s_ "p2s")) eqn:MS; destruct (dmem hs (s_ "p2c")) eqn:MC; cbn [negb] in H.
+  - (* both given by the caller: nothing is added *)
+    inv_bind H. match type of H with (let '(_, _, _) := ?x in _) = _ => destruct x as [[p1 r1] p2sv] end.
+    match goal with E : bind (to_bytes_pv _) _ = Ok _ |- _ => inv_bind E; inv_bind E; inversion E; subst p1 r1 p2sv end.
+    cbn [bind] in H. cbv beta iota zeta in H.
+    inv_bind H. inv_bind H. inv_bind H. inversion H; subst.
+    rewrite Hh in H'. inversion H'; subst hs'.
+    match goal with u : unit |- _ => destruct u end.
+    do 3 eexists. repeat split; eauto.
+  - (* p2c missing: one member added *)
+    inv_bind H. match type of H with (let '(_, _, _) := ?x in _) = _ => destruct x as [[p1 r1] p2sv] end.
+    match goal with E : bind (to_bytes_pv _) _ = Ok _ |- _ => inv_bind E; inv_bind E; inversion E; subst p1 r1 p2sv end.
+    inv_bind H. match type of H with (let '(_, _, _) := ?x in _) = _ => destruct x as [[pb rb] pc] end.
+    match goal with E : bind (add_header _ _ _ _ _) _ = Ok _ |- _ => inv_bind E; inversion E; subst end.
+    match goal with pr : (dict * recip)%type |- _ => destruct pr as [pa ra] end.
+    cbv beta iota zeta in H. simpl fst in *. simpl snd in *.
+    inv_bind H. inv_bind H. inv_bind H. inversion H; subst.
+    match goal with u : unit |- _ => destruct u end.
+    match goal with AH : add_header _ _ _ _ _ = Ok _ |- _ => rename AH into A end.
+    pose proof (add_header_get s prot unprot r _ _ p2 r2 hs' Wp Wu Wh Hc A H') as Gc.
+    assert (Goth : forall k, s_ "p2c" <> k -> dget hs' k = dget hs k).
+    { intros k N. eapply add_header_other; eauto. }
+    destruct (add_header_wf s prot r _ _ p2 r2 Wp Wh Hc A) as [_ [_ [_ [RK _]]]].
+    assert (PS : hget hs' "p2s" = hget hs "p2s") by (unfold hget; rewrite (Goth (asc "p2s")); [reflexivity | vm_compute; discriminate]).
+    do 3 eexists. split.
+    { unfold dmem in *. rewrite (Goth (s_ "p2s")); [exact MS | vm_compute; discriminate]. }
+    split; [unfold dmem, s_ in *; rewrite Gc; reflexivity |].
+    split; [rewrite PS; eassumption |]. split; [eassumption |]. split; [assumption |].
+    split; [unfold hget at 1; unfold s_ in Gc; rewrite Gc; eassumption |].
+    split; [eassumption |]. split; [exact RK |].
+    split; [intros k N1 N2; apply Goth; exact N2 |].
+    split.
+    + intro N. apply add_header_json_prot in A; [tauto | exact N].
+    + intros SC k N1 N2. subst s. unfold add_header in A. inversion A; subst. apply dget_dset_other. exact N2.
+  - (* p2s missing *)
+    inv_bind H. match type of H with (let '(_, _, _) := ?x in _) = _ => destruct x as [[p1 r1] p2sv] end.
+    match goal with E : bind (add_header _ _ _ _ _) _ = Ok _ |- _ => inv_bind E; inversion E; subst end.
+    cbn [bind] in H. cbv beta iota zeta in H.
+    inv_bind H. inv_bind H. inv_bind H. inversion H; subst.
+    match goal with u : unit |- _ => destruct u end.
+    match goal with AH : add_header _ _ _ _ _ = Ok _ |- _ => rename AH into A end.
+    pose proof (add_header_get s prot unprot r _ _ p2 r2 hs' Wp Wu Wh Hc A H') as Gs.
+    assert (Goth : forall k, s_ "p2s" <> k -> dget hs' k = dget hs k).
+    { intros k N. eapply add_header_other; eauto. }
+    destruct (add_header_wf s prot r _ _ p2 r2 Wp Wh Hc A) as [_ [_ [_ [RK _]]]].
+    assert (PC : hget hs' "p2c" = hget hs "p2c") by (unfold hget; rewrite (Goth (asc "p2c")); [reflexivity | vm_compute; discriminate]).
+    exists (b64e (d_p2s d)), (d_p2s d). eexists. split; [unfold dmem, s_ in *; rewrite Gs; reflexivity |].
+    split. { unfold dmem in *. rewrite (Goth (s_ "p2c")); [exact MC | vm_compute; discriminate]. }
+    split; [unfold hget; unfold s_ in Gs; rewrite Gs; cbn [to_bytes_pv]; apply utf8_b64e; exact BS |].
+    split; [apply b64_roundtrip; exact BS |]. split; [assumption |].
+    split; [rewrite PC; eassumption |]. split; [eassumption |]. split; [exact RK |].
+    split; [intros k N1 N2; apply Goth; exact N1 |].
+    split.
+    + intro N. apply add_header_json_prot in A; [tauto | exact N].
+    + intros SC k N1 N2. subst s. unfold add_header in A. inversion A; subst. apply dget_dset_other. exact N1.
+  - (* both missing: salt input drawn, default count *)
+    inv_bind H. match type of H with (let '(_, _, _) := ?x in _) = _ => destruct x as [[p1 r1] p2sv] end.
+    match goal with E : bind (add_header _ _ _ _ _) _ = Ok _ |- _ => inv_bind E; inversion E; subst end.
+    inv_bind H. match type of H with (let '(_, _, _) := ?x in _) = _ => destruct x as [[pb rb] pc] end.
+    match goal with E : bind (add_header _ _ _ _ _) _ = Ok (pb, rb, pc) |- _ => inv_bind E; inversion E; subst end.
+    cbv beta iota zeta in H.
+    inv_bind H. inv_bind H. inv_bind H. inversion H; subst.
+    match goal with u : unit |- _ => destruct u end.
+    match goal with
+    | A1 : add_header s prot r _ _ = Ok (?pa, ?ra), A2 : add_header s ?pa ?ra _ _ = Ok (p2, r2) |- _ =>
+        destruct (add_header2 s prot unprot r _ _ _ _ pa ra p2 r2 hs hs' Wp Wu Wh Hc NE A1 A2 Hh H')
+          as [Gs [Gc [Goth [RK _]]]];
+        assert (PJ : s <> Compact -> p2 = prot) by
+          (intro N; apply add_header_json_prot in A1; [| exact N]; apply add_header_json_prot in A2; [| exact N];
+           destruct A1, A2; congruence);
+        assert (PCm : s = Compact -> forall k, s_ "p2s" <> k -> s_ "p2c" <> k -> dget p2 k = dget prot k) by
+          (intros SC k N1 N2; subst s; unfold add_header in A1, A2; inversion A1; subst; inversion A2; subst;
+           rewrite dget_dset_other by exact N2; apply dget_dset_other; exact N1)
+    end.
+    exists (b64e (d_p2s d)), (d_p2s d). eexists. split; [unfold dmem, s_ in *; rewrite Gs; reflexivity |].
+    split; [unfold dmem, s_ in *; rewrite Gc; reflexivity |].
+    split; [unfold hget; unfold s_ in Gs; rewrite Gs; cbn [to_bytes_pv]; apply utf8_b64e; exact BS |].
+    split; [apply b64_roundtrip; exact BS |]. split; [assumption |].
+    split; [unfold hget at 1; unfold s_ in Gc; rewrite Gc; eassumption |].
+    split; [eassumption |]. split; [exact RK |]. split; [exact Goth |]. split; assumption.
+Qed.
+
+End SinglePbes2.
